@@ -213,6 +213,8 @@ func c05OpTerm(c *c05Chain, op c05Op, sysfee int64) string {
 		return fmt.Sprintf("(OWithdraw %s %s)", c05N(from), c05OptN(to))
 	case "lock":
 		return fmt.Sprintf("(OLock %s %s)", c05N(op.F), coqZi(int64(op.N)))
+	case "lim":
+		return c05LimTerm(c, op)
 	case "fault", "oog":
 		return "OAbort"
 	case "setgpb":
